@@ -96,6 +96,7 @@ type JDoc struct {
 	Keys  []Value // object keys
 	Input *JInput // symbolic input document (FromJSON of arbitrary bytes)
 	Str   bool    // scalar is a string token
+	StrKeys bool
 }
 
 // JInput is an arbitrary byte string handed to FromJSON; its class is decided lazily, once.
